@@ -252,7 +252,7 @@ def sim_summary(sim):
 
 
 # ----------------------------------------------------------------------------- spec generation
-def gen_env_group(rng, idx, allow=("linear", "neighbors", "bandit", "tagged"), small=False):
+def gen_env_group(rng, idx, allow=("linear", "neighbors", "bandit", "tagged", "supervised", "supervised"), small=False):
     kind = weighted(rng, [(k, 1) for k in allow])
     n = weighted(rng, [(5, 1), (12, 2), (24, 2), (26, 2), (40, 2), (55, 1), (70, 1)]) if not small else weighted(rng, [(3, 1), (6, 2), (10, 1)])
     if kind == "linear":
@@ -263,6 +263,12 @@ def gen_env_group(rng, idx, allow=("linear", "neighbors", "bandit", "tagged"), s
                              "n_action_features": 1 + rng.randrange(2), "n_neighborhoods": 5, "seed": rng.randrange(1, 50)}]
     elif kind == "bandit":
         src = ["bandit", {"n_interactions": n, "n_actions": 2 + rng.randrange(3), "seed": rng.randrange(1, 50)}]
+    elif kind == "supervised":
+        m = max(2, n)
+        reg = rng.random() < 0.25
+        Xs = [[rng.randrange(5), round(rng.random(), 3)] for _ in range(m)]
+        Ys = [round(rng.random(), 2) if reg else rng.choice(["a", "b", "c"]) for _ in range(m)]
+        src = ["supervised", {"X": Xs, "Y": Ys, "label_type": "r" if reg else "c", "via": weighted(rng, [("xy", 2), ("source", 1)])}]
     else:
         src = ["tagged", {"tag": f"T{idx}", "n": n, "n_actions": 2 + rng.randrange(3), "extra": rng.random() < 0.3}]
     ops = []
@@ -283,7 +289,7 @@ def gen_env_group(rng, idx, allow=("linear", "neighbors", "bandit", "tagged"), s
             ops.append(["take", {"n_interactions": max(1, n - rng.randrange(0, max(1, n // 2)))}])
         elif o == "slice":
             ops.append(["slice", {"start": rng.randrange(3), "stop": None if rng.random() < 0.5 else max(4, n - 2)}])
-        elif o == "scale" and kind in ("linear", "neighbors"):
+        elif o == "scale" and kind in ("linear", "neighbors", "supervised"):
             ops.append(["scale", {"shift": "min", "scale": "minmax", "using": None if rng.random() < 0.5 else 10}])
         elif o == "noise" and kind in ("linear", "neighbors"):
             ops.append(["noise", {"seed": rng.randrange(1, 9)}])
